@@ -126,6 +126,17 @@ def case_coq(case):
 
 
 # ------------------------------------------------------------------ cases
+def table_in_grammar(table):
+    """side condition on the RESOLVED classes: the key attribute is initialisable (a key declared
+    init=False by another lineage can be inherited as key through a re-stating decorator)"""
+    for t in table:
+        if t["key"] is not None:
+            spec = next((a for a in t["attrs"] if a["name"] == t["key"]), None)
+            if spec is not None and not spec["init"]:
+                return False
+    return True
+
+
 def observe(hier, c, calls):
     """run the implementation; returns a case dict or None when the classes cannot be defined"""
     if G.well_formed(hier) is not None:
@@ -136,6 +147,8 @@ def observe(hier, c, calls):
     except BaseException as e:
         if isinstance(e, (KeyboardInterrupt, SystemExit)):
             raise
+        return None
+    if not table_in_grammar(table):
         return None
     return {"hier": hier, "cls": c, "table": table,
             "calls": [[pos, kw, impl.call(c, pos, kw)] for pos, kw in calls]}
@@ -205,6 +218,9 @@ def gen_cases(rng, tier, budget_s):
             if isinstance(e, (KeyboardInterrupt, SystemExit)):
                 raise
             undefined += 1
+            continue
+        if not table_in_grammar(table):
+            OUTSIDE.append("key attribute with init=False")
             continue
         # constructed classes: the last class always, another one sometimes
         targets = [hier[-1]["id"]]
